@@ -99,7 +99,7 @@ class Check(Property):
             elif form == "pm_abs":
                 op = {"op": "meas", "f": "plus_minus", "q": {"m": frac_s(n), "u": uu}, "error": {"num": frac_s(s)}, "relative": False}
             elif form == "pm_rel":
-                s = abs(s) / 64
+                s = (abs(s) if rng.random() < 0.7 else -abs(s)) / 64       # a negative relative error is rejected too
                 op = {"op": "meas", "f": "plus_minus", "q": {"m": frac_s(n), "u": uu}, "error": {"num": frac_s(s)}, "relative": True}
             else:
                 eu = u2 if mult else u1
